@@ -18,9 +18,11 @@ Inductive floatv := FNone | FLeft | FRight | FFootnote.
 
 (* computed_values.display:
      if position in ('absolute','fixed') or float_ != 'none' or style.is_root_element:
-         if value == ('inline-table',): return ('block','table')         -- never equal: see above
-         elif len(value) == 1 and value[0].startswith('table-'): return ('block','flow')
-         elif value[0] == 'inline': return ('block','flow','list-item') if 'list-item' in value else ('block','flow')
+         if len(value) == 1 and value[0].startswith('table-'): return ('block','flow')
+         elif value[0] == 'inline':
+             if 'list-item' in value: return ('block','flow','list-item')
+             elif value[1] in ('table','flex','grid'): return ('block', value[1])
+             else: return ('block','flow')
      return value
    (float_ is the specified float) *)
 Definition blockifies (p : posv) (f : floatv) (root : bool) : bool :=
@@ -32,7 +34,9 @@ Definition display (p : posv) (f : floatv) (root : bool) (v : disp) : disp :=
   if blockifies p f root then
     match v with
     | DPart _ => DPair OBlock Flow false
-    | DPair OInline _ li => DPair OBlock Flow li
+    | DPair OInline i li =>
+        if li then DPair OBlock Flow true
+        else match i with ITable | Flex | Grid => DPair OBlock i false | _ => DPair OBlock Flow false end
     | _ => v
     end
   else v.
@@ -67,8 +71,9 @@ Definition css_display (p : posv) (f : floatv) (root : bool) (v : disp) : disp :
          else if root then css_blockify v else v
   end.
 
-Definition keeps_inner (v : disp) : bool :=
-  match v with DPair OInline (ITable | Flex | Grid) _ => false | _ => true end.
+(* the values the validator produces: list-item only goes with flow / flow-root *)
+Definition valid_disp (v : disp) : bool :=
+  match v with DPair _ (ITable | Flex | Grid) true => false | _ => true end.
 
 (* ---- BOX_TYPE_FROM_DISPLAY[style['display'][:2]] ---- *)
 Inductive boxcls := BlockBox | InlineBox | InlineBlockBox | TableBox | InlineTableBox | FlexBox | InlineFlexBox
